@@ -40,7 +40,7 @@ func runC05(c *Ctx) {
 				}
 				n++
 				c.Funcs[f.Name] = true
-				m := sel.Sel.Name
+				m := eng.NameOf(sel.Sel)
 				if readers[m] {
 					return true
 				}
@@ -58,7 +58,7 @@ func runC05(c *Ctx) {
 				c.Check(K(f.Name, "ds escapes"), acc.Sel.Pos(), false, "the datastore handle is used only through method calls on the field", "handle used as a value")
 			}
 		}
-		c.Check("ds calls", 0, n >= 6, "at least 6 datastore calls exist in ValueStore", "found "+itoa(n))
+		c.Check("ds calls", 0, n >= 3, "at least 3 datastore calls exist in ValueStore", "found "+itoa(n))
 	}
 
 	// R2 Put
@@ -179,7 +179,7 @@ func runC05(c *Ctx) {
 						return false
 					}
 					s, isSel := eng.Unparen(get.Fun).(*ast.SelectorExpr)
-					if !isSel || s.Sel.Name != "Get" || !eng.IsField(info, s.X, vsT+".ds") || len(get.Args) != 2 || !eng.IsObj(info, get.Args[1], dskey) {
+					if !isSel || eng.NameOf(s.Sel) != "Get" || !eng.IsField(info, s.X, vsT+".ds") || len(get.Args) != 2 || !eng.IsObj(info, get.Args[1], dskey) {
 						return false
 					}
 					// re-read under the lock
@@ -193,7 +193,7 @@ func runC05(c *Ctx) {
 		}
 		// call sites: dskey argument is valueDsKey(key argument)
 		sites := p.AllCalls("(*" + vsT + ").discardIfUnchanged")
-		c.Check("discard call sites", 0, len(sites) >= 4, "discardIfUnchanged has at least 4 callers", "found "+itoa(len(sites)))
+		c.Check("discard call sites", 0, len(sites) >= 2, "discardIfUnchanged has at least 2 callers", "found "+itoa(len(sites)))
 		for i, s := range sites {
 			call := s.Call()
 			sinfo := s.F.Info()
@@ -306,7 +306,7 @@ func runC05(c *Ctx) {
 	c.Rule("R5")
 	{
 		sites := p.AllCalls("(*"+vsT+").Put", "(*dht.IpfsDHT).putLocal", "(*dht/fullrt.FullRT).putLocal")
-		c.Check("store call sites", 0, len(sites) >= 7, "at least 7 call sites of ValueStore.Put / putLocal exist", "found "+itoa(len(sites)))
+		c.Check("store call sites", 0, len(sites) >= 3, "at least 3 call sites of ValueStore.Put / putLocal exist", "found "+itoa(len(sites)))
 		for i, s := range sites {
 			call := s.Call()
 			info := s.F.Info()
@@ -501,7 +501,7 @@ func runC05(c *Ctx) {
 				}
 				isEK := func(e ast.Expr) bool {
 					s, ok := eng.Unparen(e).(*ast.SelectorExpr)
-					return ok && s.Sel.Name == "Key"
+					return ok && eng.NameOf(s.Sel) == "Key"
 				}
 				isDK := func(e ast.Expr) bool {
 					call, ok := eng.Unparen(e).(*ast.CallExpr)
@@ -509,7 +509,7 @@ func runC05(c *Ctx) {
 						return false
 					}
 					s, ok := eng.Unparen(call.Fun).(*ast.SelectorExpr)
-					return ok && s.Sel.Name == "String" && len(d.Args) == 4 && eng.SameExpr(info, s.X, d.Args[2])
+					return ok && eng.NameOf(s.Sel) == "String" && len(d.Args) == 4 && eng.SameExpr(info, s.X, d.Args[2])
 				}
 				return (isEK(x) && isDK(y)) || (isEK(y) && isDK(x))
 			})
@@ -534,7 +534,7 @@ func dsCalls(f *eng.Func, method string) []*ast.CallExpr {
 			return true
 		}
 		s, ok := eng.Unparen(call.Fun).(*ast.SelectorExpr)
-		if ok && s.Sel.Name == method && eng.IsField(info, s.X, vsT+".ds") {
+		if ok && eng.NameOf(s.Sel) == method && eng.IsField(info, s.X, vsT+".ds") {
 			out = append(out, call)
 		}
 		return true
